@@ -737,9 +737,14 @@ class Unit:
         >>> unit
         100*m
         """
-        expr = self.expr
-        self.expr = _cancel_mul(expr, self.registry)
-        return self
+        expr = _cancel_mul(self.expr, self.registry)
+        return Unit(
+            expr,
+            self.base_value,
+            self.base_offset,
+            self.dimensions,
+            self.registry,
+        )
 
 
 def _factor_pairs(expr):
